@@ -854,8 +854,9 @@ fn parses_response_objects(mut b: &[u8]) -> bool {
         }
         let (g, v, q) = (b[0], b[1], b[2]);
         b = &b[3..];
-        if (g, v) == (1, 1) {
-            // packed bits with a start-stop qualifier
+        let pw = crate::eng_db::pack_width(g, v);
+        if pw != 0 {
+            // packed bits (g1v1, g10v1) / double bits (g3v1) with a start-stop qualifier
             let n = match q {
                 0x00 if b.len() >= 2 && b[1] >= b[0] => {
                     let n = (b[1] - b[0]) as usize + 1;
@@ -873,7 +874,7 @@ fn parses_response_objects(mut b: &[u8]) -> bool {
                 }
                 _ => return false,
             };
-            let bytes = (n + 7) / 8;
+            let bytes = (n * pw + 7) / 8;
             if b.len() < bytes {
                 return false;
             }
@@ -900,7 +901,11 @@ fn parses_response_objects(mut b: &[u8]) -> bool {
             (41, 4) => 9,
             (52, 1) | (52, 2) => 2,
             (51, 1) | (51, 2) => 6,
-            _ => return false,
+            // the other event / static variations of the eight point types (an octet string's variation is its length)
+            _ => match crate::eng_db::ev_obj_size(g, v).or(crate::eng_db::st_obj_size(g, v)) {
+                Some(n) => n,
+                None => return false,
+            },
         };
         match q {
             0x00 => {
